@@ -80,6 +80,12 @@ def serve():
         if pid == 0:
             try:
                 try:
+                    import ctypes
+                    import signal
+                    ctypes.CDLL(None).prctl(1, signal.SIGKILL)
+                except Exception:
+                    pass
+                try:
                     resp = handle(json.loads(line))
                 except BaseException as e:      # noqa
                     resp = {'ok': False, 'exc': type(e).__name__,
